@@ -600,3 +600,119 @@ Proof.
       * apply (nothing_below w q dq W Hdq Udq). left. intros (x & Hx & Ex & _).
         apply flookup_none in Elq. apply Elq. rewrite <- Ex. now apply in_map.
 Qed.
+
+(* ================================================================== os.walk over the file-system model *)
+Definition dirs_of (w : list (bytes * list bytes * list bytes)) : list bytes :=
+  flat_map (fun w : bytes * list bytes * list bytes => let '(root, ds, _) := w in map (join root) ds) w.
+
+Lemma walk_unfold root ds fs :
+  walk root (Node ds fs) = (root, map fst ds, fs) :: flat_map (fun ns => walk (join root (fst ns)) (snd ns)) ds.
+Proof.
+  cbn [walk]. f_equal. induction ds as [|[n sub] ds IH]; [reflexivity|].
+  cbn [flat_map fst snd]. now rewrite IH.
+Qed.
+
+Lemma dirs_of_app a b : dirs_of (a ++ b) = dirs_of a ++ dirs_of b.
+Proof. unfold dirs_of. now rewrite flat_map_app. Qed.
+
+Lemma dirs_of_flat_map {A} (f : A -> list (bytes * list bytes * list bytes)) l :
+  dirs_of (flat_map f l) = flat_map (fun a => dirs_of (f a)) l.
+Proof. induction l; simpl; [reflexivity|]. now rewrite dirs_of_app, IHl. Qed.
+
+Lemma flat_map_ext_in {A B} (f g : A -> list B) l : (forall a, In a l -> f a = g a) -> flat_map f l = flat_map g l.
+Proof. induction l; simpl; intros H; [reflexivity|]. rewrite H by now left. f_equal. apply IHl. intros; apply H; now right. Qed.
+
+Definition cdirs (t : fs) (d : bytes) : list fent := filter (fun e => is_child d (f_path e) && f_dir e) t.
+Definition WD (t : fs) (k : nat) (d : bytes) : list bytes := dirs_of (walk d (content_fuel k t d)).
+
+Lemma in_cdirs t d e : In e (cdirs t d) <-> In e t /\ is_child d (f_path e) = true /\ f_dir e = true.
+Proof. unfold cdirs. rewrite filter_In, andb_true_iff. tauto. Qed.
+
+Lemma WD_S w k d : wf_fs w ->
+  WD (w_fs w) (S k) d = map f_path (cdirs (w_fs w) d) ++ flat_map (fun e => WD (w_fs w) k (f_path e)) (cdirs (w_fs w) d).
+Proof.
+  intros W. unfold WD. cbn [content_fuel]. rewrite walk_unfold. fold (cdirs (w_fs w) d).
+  match goal with |- dirs_of (?a :: ?l) = _ => change (a :: l) with ([a] ++ l) end. rewrite dirs_of_app.
+  assert (J : forall e, In e (cdirs (w_fs w) d) -> join d (basename (f_path e)) = f_path e).
+  { intros e He. apply in_cdirs in He as (He & Hc & _). assert (Np := wf_np w W e He).
+    apply is_child_np in Hc; [|exact Np]. subst d. now apply npath_parts. }
+  f_equal.
+  - cbn. rewrite app_nil_r, !map_map. cbn [fst]. now apply map_ext_in.
+  - rewrite dirs_of_flat_map, flat_map_concat_map, map_map, <- flat_map_concat_map.
+    apply flat_map_ext_in. intros e He. cbn [fst snd]. now rewrite J.
+Qed.
+
+Lemma WD_sound w : wf_fs w -> forall k d x, In x (WD (w_fs w) k d) ->
+  exists e, In e (w_fs w) /\ f_path e = x /\ f_dir e = true /\ under d x = true.
+Proof.
+  intros W. induction k as [|k IH]; intros d x Hx.
+  - cbn in Hx. contradiction.
+  - rewrite WD_S in Hx by assumption. apply in_app_iff in Hx as [Hx|Hx].
+    + apply in_map_iff in Hx as (e & <- & He). apply in_cdirs in He as (He & Hc & Hd).
+      exists e. repeat split; try assumption. assert (Np := wf_np w W e He).
+      apply is_child_np in Hc; [|exact Np]. subst d. now apply under_dirname.
+    + apply in_flat_map in Hx as (c & Hc & Hx). apply IH in Hx as (e & He & Ee & De & Ue).
+      exists e. repeat split; try assumption. apply in_cdirs in Hc as (Hc & Hcc & _).
+      assert (Np := wf_np w W c Hc). apply is_child_np in Hcc; [|exact Np]. subst d.
+      eapply under_trans; [apply under_dirname; exact Np | exact Ue].
+Qed.
+
+Lemma filter_length_le {A} (f : A -> bool) l : length (filter f l) <= length l.
+Proof. induction l; simpl; [lia|]. destruct (f a); simpl; lia. Qed.
+
+Lemma filter_length_lt {A} (f g : A -> bool) l c :
+  (forall x, f x = true -> g x = true) -> In c l -> f c = false -> g c = true ->
+  length (filter f l) < length (filter g l).
+Proof.
+  intros Hfg. induction l as [|a l IH]; simpl; intros Hin Hf Hg; [contradiction|].
+  assert (Hle : length (filter f l) <= length (filter g l)).
+  { clear -Hfg. induction l as [|b l IH]; simpl; [lia|]. destruct (f b) eqn:E.
+    - rewrite (Hfg _ E). simpl. lia.
+    - destruct (g b); simpl; lia. }
+  destruct Hin as [->|Hin].
+  - rewrite Hf, Hg. simpl. lia.
+  - specialize (IH Hin Hf Hg). destruct (f a) eqn:E; [rewrite (Hfg _ E)|destruct (g a)]; simpl; lia.
+Qed.
+
+Lemma WD_complete w : wf_fs w -> forall k d de, In de (w_fs w) -> f_path de = d ->
+  length (filter (fun e => under d (f_path e)) (w_fs w)) < k ->
+  forall e, In e (w_fs w) -> f_dir e = true -> under d (f_path e) = true -> In (f_path e) (WD (w_fs w) k d).
+Proof.
+  intros W. induction k as [|k IH]; intros d de Hde Ede Hk e He De Ue; [lia|].
+  rewrite WD_S by assumption.
+  destruct (chain_child_gen w W _ e (le_n _) He d de Hde Ue (or_introl (eq_sym Ede))) as (c & Hc & Ec & Hce).
+  assert (Nc := wf_np w W c Hc).
+  assert (Dc : f_dir c = true).
+  { destruct Hce as [->|Hce]; [exact De|].
+    assert (Hx : isdir_in (f_path c) (w_fs w)).
+    { apply (chain w e (f_path c) c W He Hc Hce). now left. }
+    destruct Hx as (c' & Hc' & Ec' & Dc'). assert (c' = c) by (apply (path_inj (w_fs w)); [apply W| | |]; assumption).
+    congruence. }
+  assert (Hcd : In c (cdirs (w_fs w) d)).
+  { apply in_cdirs. repeat split; try assumption. now apply is_child_np. }
+  apply in_app_iff. destruct Hce as [->|Hce]; [left; now apply in_map|].
+  right. apply in_flat_map. exists c. split; [exact Hcd|].
+  apply (IH (f_path c) c Hc eq_refl); try assumption.
+  assert (Ucd : under d (f_path c) = true) by (rewrite <- Ec; now apply under_dirname).
+  assert (Hlt : length (filter (fun e => under (f_path c) (f_path e)) (w_fs w)) <
+                length (filter (fun e => under d (f_path e)) (w_fs w))).
+  { apply filter_length_lt with (c := c); try assumption.
+    - intros x Hx. eapply under_trans; eassumption.
+    - apply under_irrefl. }
+  lia.
+Qed.
+
+(* walk_dirs lists exactly the directories below p *)
+Lemma walk_dirs_spec w p : wf_fs w -> fisdir p (w_fs w) = true ->
+  forall x, In x (walk_dirs (w_fs w) p) <->
+            exists e, In e (w_fs w) /\ f_path e = x /\ f_dir e = true /\ under p x = true.
+Proof.
+  intros W Hp x. unfold walk_dirs, content. rewrite Hp. fold (dirs_of (walk p (content_fuel (length (w_fs w)) (w_fs w) p))).
+  fold (WD (w_fs w) (length (w_fs w)) p). split.
+  - now apply WD_sound.
+  - intros (e & He & <- & De & Ue). apply fisdir_in in Hp as (pe & Hpe & Epe & _).
+    apply (WD_complete w W _ p pe); try assumption.
+    assert (H := filter_length_lt (fun e => under p (f_path e)) (fun _ => true) (w_fs w) pe).
+    assert (Ht : filter (fun _ : fent => true) (w_fs w) = w_fs w) by (generalize (w_fs w); intros l; induction l as [|a l IHl]; simpl; [reflexivity | now rewrite IHl]).
+    rewrite Ht in H. apply H; auto. rewrite Epe. apply under_irrefl.
+Qed.
